@@ -59,7 +59,7 @@ func c11Universes(tier string) []c11Universe {
 	empty := ""
 	d := 4
 	if tier == "thorough" {
-		d = 6
+		d = 5 // (depth 6 of this universe alone ran for more than half an hour on 16 cores)
 	}
 	return []c11Universe{c11U(tier), {Name: "nopath", Roots: []string{"", "/a"}, NoPath: []int{0}, Dynamic: []int{0}, DynEntry: &empty, Patterns: []string{"/static/", "/health"}, Depth: d}}
 }
